@@ -305,6 +305,9 @@ def multitrack_source(rng, malformed=False):
     for n in order:
         parts.append(rng.choice(["TR(%d)", "TR=%d", "Track(%d)", "TRACK(%d)"]) % n)
         parts.append(pr(gen_cmds(rng, 2, rng.randrange(0, 6), top=False)))
+    if rng.random() < 0.12:
+        # a verbatim End-of-Track written by the source in the middle of a track: the chunk must still END with End-of-Track
+        parts.insert(rng.randrange(1, len(parts)), rng.choice(["DirectSMF($FF,$2F,$00)", "DirectSMF($FF,$2F,0) c", "DirectSMF(255,47,0) r8 d"]))
     if malformed:
         junk = ["!", "ZZZ", "}", "]", "'", "[", "{", "(", "\u3042", "\x00", "$", "~{x}", "Sub{", "#?1", "TR(", "v", "@", "y", ",,,", "^^"]
         for _ in range(rng.randrange(1, 4)):
